@@ -226,8 +226,7 @@ class FieldValueComponentBase(ParsableBase, Serializable):
 
     @classmethod
     def _check_name(cls, name):
-        if name != cls.get_canonical_name():
-            raise InvalidType()
+        cls._check_name_insensitive(name)
 
 
 @attr.s
